@@ -23,7 +23,7 @@ structure PhraseOK (sh : Shared D L) (p : PhraseSel) : Prop where
 structure SelInv (sh : Shared D L) (s : Selecting) : Prop where
   sel : match s.sel with
     | .phrase p => PhraseOK env sh p
-    | .symbol _ => True
+    | .symbol y => SymWF y
     | .special sym => sym.isSyl = false
   /-- a list that replaces the symbol under the cursor sits on a non-syllable symbol -/
   repl : s.action = .replace → (∃ p, s.sel = .phrase p) ∨ ∃ ch, sh.com.inner.symbols[sh.com.cursor]? = some (Sym.chr ch)
@@ -48,7 +48,7 @@ theorem StInv.congr {sh sh' : Shared D L} {st : St} (h : StInv env sh st) (hc : 
     refine ⟨?_, ?_⟩
     · split
       · next p hp => rw [hp] at h1; exact PhraseOK.congr h1 hc hm
-      · trivial
+      · next y hp => rw [hp] at h1; exact h1
       · next sym hp => rw [hp] at h1; exact h1
     · intro ha; rw [hc, hcur]; exact h2 ha
   | entering => trivial
